@@ -896,8 +896,13 @@ def rule_T5(ctx, rid='T5'):
            ('the loop test has no conjunct comparing n_like with n_like_max' if budget is None
             else 'the budget comparison is %s, not strict <: one more batch starts when the '
             'limit has been reached' % budget))
+    svar = None
+    for r_ in walk_no_nested(run.node):
+        if isinstance(r_, ast.Return) and isinstance(r_.value, ast.Name):
+            svar = r_.value.id
+    ctx.require(svar is not None, 'Sampler.run does not return a plain variable')
     ns = any(isinstance(c, ast.UnaryOp) and isinstance(c.op, ast.Not) and
-             isinstance(c.operand, ast.Name) and c.operand.id == 'success' for c in conj)
+             isinstance(c.operand, ast.Name) and c.operand.id == svar for c in conj)
     ctx.ob(rid, 'Sampler.run:stops-on-success', ns, run.where(W.ast),
            'the loop test contains `not success`' if ns else
            'the loop does not stop when the success predicate holds')
@@ -971,8 +976,8 @@ def rule_T5(ctx, rid='T5'):
            else 'some path through add_samples evaluates the batch zero or several times')
     # (e) success predicate
     assigns = [n for n in cfg.nodes if n.kind == 'stmt' and isinstance(n.ast, ast.Assign) and
-               isinstance(n.ast.targets[0], ast.Name) and n.ast.targets[0].id == 'success']
-    ctx.require(len(assigns) >= 2, 'Sampler.run: assignments of `success` not found')
+               isinstance(n.ast.targets[0], ast.Name) and n.ast.targets[0].id == svar]
+    ctx.require(len(assigns) >= 2, 'Sampler.run: assignments of the returned flag not found')
     texts = {ast.dump(a.ast.value) for a in assigns}
     ctx.ob(rid, 'Sampler.run:success-same-expression', len(texts) == 1, run.where(assigns[0].ast),
            'the success predicate is the same expression at all %d assignments' % len(assigns)
@@ -1005,7 +1010,7 @@ def rule_T5(ctx, rid='T5'):
     ctx.ob(rid, 'Sampler.run:success-recomputed-after-batch', ok, run.where(W.ast),
            'the success predicate is recomputed after every batch before the loop test')
     rets = [n for n in cfg.nodes if n.kind == 'stmt' and isinstance(n.ast, ast.Return)]
-    okr = bool(rets) and all(isinstance(r.ast.value, ast.Name) and r.ast.value.id == 'success'
+    okr = bool(rets) and all(isinstance(r.ast.value, ast.Name) and r.ast.value.id == svar
                              for r in rets)
     ctx.ob(rid, 'Sampler.run:returns-success', okr, run.where(rets[0].ast if rets else None),
            'run() returns the success predicate' if okr else
